@@ -342,7 +342,7 @@ def run(ctx):
                     payload = embed(dict(extra, __jsonclass__=copy.deepcopy(desc)), depth, rng)
                     check_off(ctx, mon, payload, side, fx_off,
                               proxies_off[n % len(proxies_off)] if side == "client" else proxy_off, t_off)
-    for i in range(ctx.pick(300, 40000)):
+    for i in range(ctx.pick(1200, 40000)):
         v = gen.json_value(rng, 3, 3)
         d = {"__jsonclass__": rng.choice(descriptors + [gen.json_value(rng, 2, 3)])}
         payload = embed(d, rng.randint(0, 3), rng)
@@ -377,7 +377,7 @@ def run(ctx):
             n += 1
             if ctx.mine(n):
                 check_name(ctx, mon, name, args, n % 3, rng, None, "non-string-name")
-    for i in range(ctx.pick(500, 200000)):
+    for i in range(ctx.pick(2000, 200000)):
         r = rng.random()
         if r < 0.5:
             name = gen.rand_str(rng, 12)
